@@ -24,8 +24,8 @@ class StackUnderflow(Exception):
     pass
 
 
-class Unsupported(Exception):
-    pass
+class Unsupported(OutOfDomain):
+    """an instruction whose value is not a function of the machine state modelled here (PC): no state is in the domain"""
 
 
 def H(*parts):
@@ -170,6 +170,7 @@ ARITY.update({
     "CREATE": (3, 1), "CREATE2": (4, 1), "ASSIGNIMMUTABLE": (2, 0),
     "JUMP": (1, 0), "JUMPI": (2, 0), "STOP": (0, 0), "RETURN": (2, 0), "REVERT": (2, 0),
     "INVALID": (0, 0), "SELFDESTRUCT": (1, 0), "tag": (0, 0), "JUMPDEST": (0, 0),
+    "PC": (0, 1),          # known to the readers and generators of naturally failing blocks; not modelled (Unsupported)
 })
 for _k in range(1, 17):
     ARITY["DUP%d" % _k] = (_k, _k + 1)
